@@ -497,6 +497,26 @@ pub fn all() -> Vec<Scenario> {
             }));
         }
     }
+    // bits of a decomposition in a degree-4 extension circuit: non-zero higher coefficients, for every shape and two packings
+    for shape in crate::extbits::SHAPES {
+        for (pk, packing) in [("lanes1", TablePacking::new(1, 1)), ("default", TablePacking::default())] {
+            let id: &'static str = Box::leak(format!("ext-bit-higher-coefficients:{shape}:{pk}").into_boxed_str());
+            let r = catch_unwind(AssertUnwindSafe(|| crate::extbits::run(shape, 4, packing)));
+            per_bit.push(match r {
+                Ok(Ok((honest_ok, accepted, how))) => Scenario {
+                    id,
+                    properties: &["C12"],
+                    what: "decompose_to_bits::<BabyBear>(x, 4) over BinomialExtensionField<BabyBear, 4>; the hint emits bits whose higher coefficients are non-zero (single: one coefficient of one bit; cancel-in-x: two bits, cancelling in the recomposition; zero-sum: additionally the higher coefficients of every bit sum to zero); x and the exposed 5 * bit_0 follow the forged bits; real runner, prover, verifier",
+                    honest: if honest_ok { "accepted".into() } else { "honest decomposition refused".into() },
+                    forged: Some(how),
+                    accepted,
+                    detail: json!({"shape": shape, "packing": pk}),
+                },
+                Ok(Err(e)) => Scenario { id, properties: &[], what: "", honest: format!("scenario construction failed: {e}"), forged: None, accepted: false, detail: json!({}) },
+                Err(_) => Scenario { id, properties: &[], what: "", honest: "panic while constructing the scenario".into(), forged: None, accepted: false, detail: json!({}) },
+            });
+        }
+    }
     // base-field challenger: one capacity element altered between two permutations, for every capacity slot
     for slot in crate::capchain::SLOTS {
         let id: &'static str = Box::leak(format!("challenger-capacity-chain-base:slot={slot}").into_boxed_str());
